@@ -352,6 +352,49 @@ func checkC15(c FoldCase) (f *report.Failure, nodes int, distinctOps int) {
 				return report.Failf("removal-affects-others", "tree %#v does not contain %v, yet removing its function changed the result: %q (%v) vs %q", e, op, out, err, full), nodes, distinctOps
 			}
 		}
+	case "blank":
+		// one operator's function returns the empty string: every node's function must
+		// still be called exactly once and the root result returned
+		tr := &tracer{}
+		m := tr.fullMap()
+		inner := m[op]
+		m[op] = func(l, r string) (string, error) {
+			_, _ = inner(l, r)
+			tr.log[len(tr.log)-1].result = ""
+			return "", nil
+		}
+		out, err := render(m, e, c.Embed)
+		if err != nil {
+			return report.Failf("blank-error", "Render failed although every operator has a function (one of them returns the empty string): %v", err), nodes, distinctOps
+		}
+		if len(tr.log) != nodes {
+			return report.Failf("blank-visit-count", "tree %#v has %d nodes but %d render functions were called when the function of %v returns the empty string", e, nodes, len(tr.log), op), nodes, distinctOps
+		}
+		calls := map[expr.Operator]int{}
+		for _, cl := range tr.log {
+			calls[cl.op]++
+		}
+		for o, n := range per {
+			if calls[o] != n {
+				return report.Failf("blank-visit-count", "tree %#v has %d %v nodes but their function was called %d times when the function of %v returns the empty string", e, n, o, calls[o], op), nodes, distinctOps
+			}
+		}
+		if last := tr.log[len(tr.log)-1]; out != last.result {
+			return report.Failf("blank-root", "Render returned %q, the root call returned %q", out, last.result), nodes, distinctOps
+		}
+	case "nil-map", "empty-map":
+		m := map[expr.Operator]driver.RenderFN{}
+		if c.Mode == "nil-map" {
+			m = nil
+		}
+		out, err := render(m, e, c.Embed)
+		if err == nil || out != "" {
+			return report.Failf("no-functions-no-error", "a driver with %s rendered %#v as %q (err %v); with no function registered Render must fail", map[bool]string{true: "a nil function map", false: "an empty function map"}[m == nil], e, out, err), nodes, distinctOps
+		}
+		po, _, perr := driver.Base{RenderFNs: m}.RenderParam(e)
+		if perr == nil && e.Op != expr.Like && e.Op != expr.Range {
+			return report.Failf("no-functions-no-error", "RenderParam with no function registered rendered %#v as %q", e, po), nodes, distinctOps
+		}
 	case "stock":
 		if per[expr.Boost]+per[expr.Fuzzy] == 0 || c.Built >= 0 {
 			return nil, nodes, distinctOps
@@ -408,7 +451,7 @@ func TestC15(t *testing.T) {
 		}
 		return true
 	}
-	modes := []string{"trace", "override", "remove-traced", "remove-shared", "fail", "stock"}
+	modes := []string{"trace", "override", "remove-traced", "remove-shared", "fail", "stock", "blank", "nil-map", "empty-map"}
 
 	// exhaustive: hand-built trees and a fixed set of small generated trees x every mode x every operator
 	leaves := gen.LeafAlphabet(true)
@@ -424,7 +467,7 @@ func TestC15(t *testing.T) {
 	for _, base := range cases {
 		for _, mode := range modes {
 			ops := allOps
-			if mode == "trace" || mode == "stock" {
+			if mode == "trace" || mode == "stock" || mode == "nil-map" || mode == "empty-map" {
 				ops = allOps[:1]
 			}
 			for _, op := range ops {
